@@ -53,7 +53,15 @@ Leaves ==
     \* depth-1 production is also applied to an operand whose type depends on content
     \cup {NFor("object", 1, "v", NVar("m"), NVar("v"), NVar("k"), NNone),
           NFor("group", 1, "v", NVar("m"), NVar("v"), NVar("k"), NNone),
-          NObject(<<NParen(NVar("s")), NNum(2)>>)}
+          NObject(<<NParen(NVar("s")), NNum(2)>>),
+          \* ... and results of the other operand-producing constructs
+          NCond(NVar("b"), NVar("n1"), NVar("s")),
+          NSplat("full", NVar("lo"), NAttr(NAnon, "a")),
+          NFor("tuple", 0, "v", NVar("l"), NNone, NVar("v"), NBin("==", NVar("v"), NVar("s"))),
+          NIndex(NVar("o"), NVar("s")),
+          NCall("cat", FALSE, <<NVar("s"), StrLit("a")>>),
+          NTpl("q", <<NTLit("a"), NInterp(0, NVar("s"))>>),
+          NUn("-", NVar("n1"))}
 
 PNum  == {NVar("n1"), NNum(4), NNum(0), NVar("sn"), NVar("s"), NVar("nul")}
 PBool == {NVar("b"), NBool(FALSE), NVar("nul"), NVar("s")}
